@@ -10,7 +10,7 @@ elab "#audit " ns:ident : command => do
   let nsName := ns.getId
   let mut names : Array Name := #[]
   for (n, ci) in env.constants.toList do
-    if nsName.isPrefixOf n && !n.isInternal then
+    if (nsName.toString).isPrefixOf n.toString && !n.isInternal then
       match ci with
       | .thmInfo _ =>
         let last := n.getString!
